@@ -230,6 +230,142 @@ def has_quant(t):
     return walk(t)
 
 
+class TermIndex:
+    """Incremental index over the ground part of a query (each subterm is visited once, however many rounds)."""
+
+    NTH_NAMES = ("seq.nth_i", "seq.nth_u")
+
+    def __init__(self, reg):
+        self.reg = reg
+        self.seen = set()
+        self.usage = {}            # id of a sequence term -> [index terms used with it]
+        self.idx, self.idx_ids = [], set()
+        self.fold_apps, self.map_apps = [], []
+        self.new_nth = []          # (base, k) pairs not yet given to the lemma generator
+        self.seq_eqs = []          # sequence equalities anywhere in the boolean structure
+        self.new_seq_eqs = []
+        self.top_eqs = []          # sequence equalities at the top level (asserted)
+        self.parent = {}
+        self.members = {}
+        self.app_args = {}         # id of fold/map app -> tuple of arg ids
+
+    # -- union-find over sequence terms
+    def find(self, a):
+        p = self.parent
+        while p.get(a, a) != a:
+            a = p[a]
+        return a
+
+    def union(self, a, b):
+        ra, rb = self.find(a), self.find(b)
+        if ra != rb:
+            self.parent[ra] = rb
+
+    def add_idx(self, t):
+        if t.get_id() not in self.idx_ids and t.sort() == INT:
+            self.idx_ids.add(t.get_id())
+            self.idx.append(t)
+
+    def add(self, f, top=True):
+        if top:
+            self._top(f)
+        stack = [f]
+        seen = self.seen
+        fold_defs, map_defs = self.reg.fold_defs, self.reg.map_defs
+        while stack:
+            x = stack.pop()
+            xid = x.get_id()
+            if xid in seen:
+                continue
+            seen.add(xid)
+            if z3.is_quantifier(x) or not z3.is_app(x):
+                continue
+            n = x.num_args()
+            if n == 0:
+                continue
+            d = x.decl()
+            k = d.kind()
+            if k == z3.Z3_OP_SEQ_NTH or (k == z3.Z3_OP_UNINTERPRETED is False and False):
+                pass
+            name = None
+            if k == z3.Z3_OP_SEQ_NTH:
+                base, ix = x.arg(0), x.arg(1)
+                self.add_idx(ix)
+                for b in if_branches(base):
+                    self.usage.setdefault(b.get_id(), []).append(ix)
+                self.new_nth.append((base, ix))
+            elif k == z3.Z3_OP_SEQ_EXTRACT:
+                a1, a2 = x.arg(1), x.arg(2)
+                self.add_idx(a1)
+                self.add_idx(a1 + a2)
+                self.add_idx(a1 + a2 - 1)
+            elif k == z3.Z3_OP_SEQ_AT:
+                self.add_idx(x.arg(1))
+            elif k == z3.Z3_OP_EQ:
+                a0 = x.arg(0)
+                if z3.is_seq(a0):
+                    b0 = x.arg(1)
+                    self.members[a0.get_id()] = a0
+                    self.members[b0.get_id()] = b0
+                    self.union(a0.get_id(), b0.get_id())
+                    self.seq_eqs.append((a0, b0))
+            elif k == z3.Z3_OP_UNINTERPRETED:
+                name = d.name()
+                if name in fold_defs:
+                    self.fold_apps.append(x)
+                    self.app_args[xid] = tuple(x.arg(i).get_id() for i in range(n))
+                elif name in map_defs:
+                    self.map_apps.append(x)
+                    self.app_args[xid] = tuple(x.arg(i).get_id() for i in range(n))
+                elif x.sort() == INT and name.startswith(("lead_", "trail_", "first_pair", "wit_")):
+                    self.add_idx(x)
+                    self.add_idx(x - 1)
+            elif name is None and k not in (z3.Z3_OP_AND, z3.Z3_OP_OR, z3.Z3_OP_NOT, z3.Z3_OP_IMPLIES, z3.Z3_OP_ITE):
+                nm = d.name()
+                if nm in self.NTH_NAMES:
+                    base, ix = x.arg(0), x.arg(1)
+                    self.add_idx(ix)
+                    for b in if_branches(base):
+                        self.usage.setdefault(b.get_id(), []).append(ix)
+                    self.new_nth.append((base, ix))
+            for i in range(n):
+                stack.append(x.arg(i))
+
+    def _top(self, f):
+        if z3.is_app(f):
+            k = f.decl().kind()
+            if k == z3.Z3_OP_AND:
+                for i in range(f.num_args()):
+                    self._top(f.arg(i))
+            elif k == z3.Z3_OP_EQ and z3.is_seq(f.arg(0)) and f.arg(0).sort() != STR:
+                self.top_eqs.append((f.arg(0), f.arg(1)))
+
+    def congruence(self):
+        """same fold/map symbol, arguments pairwise identical or in the same class -> same class"""
+        by_decl = {}
+        for a in self.fold_apps + self.map_apps:
+            if z3.is_seq(a):
+                by_decl.setdefault(a.decl().name(), []).append(a)
+        for _ in range(2):
+            for lst in by_decl.values():
+                for i in range(len(lst)):
+                    ai = self.app_args[lst[i].get_id()]
+                    for j in range(i + 1, len(lst)):
+                        if self.find(lst[i].get_id()) == self.find(lst[j].get_id()):
+                            continue
+                        bj = self.app_args[lst[j].get_id()]
+                        if all(x == y or self.find(x) == self.find(y) for x, y in zip(ai, bj)):
+                            self.members[lst[i].get_id()] = lst[i]
+                            self.members[lst[j].get_id()] = lst[j]
+                            self.union(lst[i].get_id(), lst[j].get_id())
+
+    def by_class(self):
+        out = {}
+        for sid, terms in self.usage.items():
+            out.setdefault(self.find(sid), []).extend(terms)
+        return out
+
+
 def prepare_query(reg: Registry, hyps, goal, extra_terms=(), level=0):
     """Return (ground hypotheses, ground goal).  level 0: quantified hypotheses, map/split facts and fold
     definitions are instantiated; level 1 additionally instantiates the character-class run facts
@@ -249,25 +385,35 @@ def prepare_query(reg: Registry, hyps, goal, extra_terms=(), level=0):
     derived = []            # instances, lemmas, unfoldings (deduplicated by term id)
     derived_ids = set()
     done_fold = set()
-    fold_anchors = None
     lemma_done = set()
+    ix = TermIndex(reg)
+    for h in ground0:
+        ix.add(h)
+    qgoal = has_quant(g)
+    if not qgoal:
+        ix.add(g, top=False)
+    # anchors for fold unfolding: applications occurring in the query itself (incl. quantified hypotheses)
+    anchor_ix = TermIndex(reg)
+    for h in ground0 + qhyps + [g]:
+        anchor_ix.add(h, top=False)
+    fold_anchors = list(anchor_ix.fold_apps)
+    del anchor_ix
 
     def add(t):
         if t.get_id() not in derived_ids:
             derived_ids.add(t.get_id())
             derived.append(t)
+            ix.add(t)
             return True
         return False
 
-    qgoal = has_quant(g)
+    sk_int = [t for t in sk if t.sort() == INT]
     for rnd in range(INST_ROUNDS):
-        base = ground0 + derived + ([g] if not qgoal else [])
-        idx = index_terms(base + ([g] if qgoal else [])) + [t for t in sk if t.sort() == INT] + list(extra_terms) + [ival(0)]
-        usage = nth_usage(base)
-        find = seq_classes(ground0 + derived + [g], (reg.fold_defs, reg.map_defs))
-        by_class = {}
-        for sid, terms in usage.items():
-            by_class.setdefault(find(sid), []).extend(terms)
+        ix.congruence()
+        find = ix.find
+        by_class = ix.by_class()
+        usage = ix.usage
+        idx = ix.idx + sk_int + list(extra_terms) + [ival(0)]
 
         def select(q):
             pats = quant_patterns(q)
@@ -293,8 +439,10 @@ def prepare_query(reg: Registry, hyps, goal, extra_terms=(), level=0):
             g2 = z3.Not(elim_quant(z3.Not(g), True, select, sk))
             if not has_quant(g2):
                 g, qgoal = g2, False
+                ix.add(g, top=False)
                 changed = True
-        ids = subterm_ids(base + [g])
+        sk_int = [t for t in sk if t.sort() == INT]
+        ids = ix.seen
         for qf in reg.qfacts:
             if level == 0 and type(qf).__name__.startswith("RunFact"):
                 continue
@@ -316,35 +464,41 @@ def prepare_query(reg: Registry, hyps, goal, extra_terms=(), level=0):
                         if t.get_id() not in cids:
                             cids.add(t.get_id())
                             cands.append(t)
-                for t in sk:
-                    if t.sort() == INT and t.get_id() not in cids:
+                for t in sk_int:
+                    if t.get_id() not in cids:
                         cids.add(t.get_id())
                         cands.append(t)
             for j in cands[:80]:
                 changed |= add(qf.instance(j))
         # definitions of comprehension maps at their applications
-        if reg.map_defs:
-            for a in named_apps(reg.map_defs, ground0 + derived + [g]):
-                md = reg.map_defs[a.decl().name()]
-                changed |= add(md.length(a))
-                cands, cids = [], set()
-                for sid in (a.get_id(), a.arg(0).get_id()):
-                    for t in by_class.get(find(sid), []) + usage.get(sid, []):
-                        if t.get_id() not in cids:
-                            cids.add(t.get_id())
-                            cands.append(t)
-                for t in sk:
-                    if t.sort() == INT and t.get_id() not in cids:
+        for a in list(ix.map_apps):
+            md = reg.map_defs[a.decl().name()]
+            changed |= add(md.length(a))
+            cands, cids = [], set()
+            for sid in (a.get_id(), a.arg(0).get_id()):
+                for t in by_class.get(find(sid), []) + usage.get(sid, []):
+                    if t.get_id() not in cids:
                         cids.add(t.get_id())
                         cands.append(t)
-                for j in cands[:60]:
-                    changed |= add(md.instance(a, j))
-        for lem in seq_lemmas(ground0 + derived + [g], lemma_done):
-            changed |= add(lem)
+            for t in sk_int:
+                if t.get_id() not in cids:
+                    cids.add(t.get_id())
+                    cands.append(t)
+            for j in cands[:60]:
+                key = ("map", a.get_id(), j.get_id())
+                if key in lemma_done:
+                    continue
+                lemma_done.add(key)
+                changed |= add(md.instance(a, j))
+        # structural lemmas for the nth terms seen since the last round
+        pending, ix.new_nth = ix.new_nth, []
+        for base, k_ in pending:
+            for lem in seq_lemmas_for(base, k_, lemma_done):
+                changed |= add(lem)
         # congruence helpers: for an asserted sequence equality a == b and an index k used with that class:
         # a[k] == b[k], and nth distributed over if-then-else sequences (valid consequences; the sequence solver
         # is slow to find them on its own -- measured)
-        for a_, b_ in top_level_seq_equalities(ground0 + derived):
+        for a_, b_ in list(ix.top_eqs):
             ks = by_class.get(find(a_.get_id()), [])[:24]
             for k_ in ks:
                 key = ("cong", a_.get_id(), b_.get_id(), k_.get_id())
@@ -357,19 +511,15 @@ def prepare_query(reg: Registry, hyps, goal, extra_terms=(), level=0):
                     if lifted is not None:
                         changed |= add(t_[k_] == lifted)
         # structured members (concat / extract / unit) of a class get the lemmas for every index used with the class
-        for mid, m in list(find.members.items()):
+        for mid, m in list(ix.members.items()):
             for b in if_branches(m):
                 if z3.is_app(b) and b.decl().kind() in (z3.Z3_OP_SEQ_CONCAT, z3.Z3_OP_SEQ_EXTRACT, z3.Z3_OP_SEQ_UNIT):
                     for k in by_class.get(find(mid), [])[:40]:
-                        for lem in seq_lemmas([b[k]], lemma_done):
+                        for lem in seq_lemmas_for(b, k, lemma_done):
                             changed |= add(lem)
-        if reg.fold_defs:
-            if fold_anchors is None:
-                fold_anchors = fold_apps(reg, ground0 + [g] + qhyps)
-            for a in fold_apps(reg, ground0 + derived + [g]):
+        if reg.fold_defs and rnd < FOLD_UNFOLD_ROUNDS:
+            for a in list(ix.fold_apps):
                 if a.get_id() in done_fold:
-                    continue
-                if rnd >= FOLD_UNFOLD_ROUNDS:
                     continue
                 done_fold.add(a.get_id())
                 # base case, for every application: k <= 0  ==>  F(xs, k, init, ..) == init
@@ -380,19 +530,56 @@ def prepare_query(reg: Registry, hyps, goal, extra_terms=(), level=0):
                 # the application itself is kept syntactically as it occurs in the query (term identity matters for
                 # the instantiation heuristics); only the right-hand side is simplified
                 rhs = reg.fold_defs[a.decl().name()].rhs(a)
-                changed |= add(a == renth(z3.simplify(rhs)))
+                srhs = renth(z3.simplify(rhs))
+                changed |= add(a == srhs)
                 srt = a.sort()
                 if srt.kind() == z3.Z3_DATATYPE_SORT and srt.num_constructors() == 1:
                     # tuple-valued fold state: component-wise equations (sequence components take part in the
                     # sequence lemmas / instantiation heuristics only as sequence-sorted equalities)
                     for ai in range(srt.constructor(0).arity()):
                         acc = srt.accessor(0, ai)
-                        changed |= add(acc(a) == renth(z3.simplify(project(srt, ai, renth(z3.simplify(rhs))))))
+                        changed |= add(acc(a) == renth(z3.simplify(project(srt, ai, srhs))))
         if not changed:
             break
     if qgoal:
         g = z3.Not(elim_quant(z3.Not(g), True, select, sk))
     return ground0 + derived, g
+
+
+def seq_lemmas_for(base, k, done):
+    """nth(concat(a, b..), k) / nth(unit(c), 0) / nth(extract(s, a, l), k) / through if-then-else: valid facts of the
+    theory of sequences that the solvers do not derive reliably on their own (measured, DESIGN 3.4)."""
+    out = []
+
+    def lemma_for(base, k, depth=0):
+        if not z3.is_app(base) or depth > 6:
+            return
+        kind = base.decl().kind()
+        if kind == z3.Z3_OP_ITE:
+            lemma_for(base.arg(1), k, depth + 1)
+            lemma_for(base.arg(2), k, depth + 1)
+            return
+        if kind not in (z3.Z3_OP_SEQ_CONCAT, z3.Z3_OP_SEQ_UNIT, z3.Z3_OP_SEQ_EXTRACT):
+            return
+        key = (base.get_id(), k.get_id())
+        if key in done:
+            return
+        done.add(key)
+        if kind == z3.Z3_OP_SEQ_CONCAT:
+            off = ival(0)
+            for i in range(base.num_args()):
+                p = base.arg(i)
+                ln = z3.Length(p)
+                out.append(z3.Implies(z3.And(k >= off, k < off + ln), base[k] == p[k - off]))
+                lemma_for(p, z3.simplify(k - off), depth + 1)
+                off = off + ln
+        elif kind == z3.Z3_OP_SEQ_UNIT:
+            out.append(z3.Implies(k == 0, base[k] == base.arg(0)))
+        elif kind == z3.Z3_OP_SEQ_EXTRACT:
+            s0, a, l = base.arg(0), base.arg(1), base.arg(2)
+            out.append(z3.Implies(z3.And(k >= 0, k < z3.Length(base), a >= 0), base[k] == s0[a + k]))
+    lemma_for(base, k)
+    return out
 
 
 INST_ROUNDS = int(os.environ.get("PYVC_INST_ROUNDS", "7"))
@@ -941,7 +1128,7 @@ def ext_goal(goal):
     return g if changed[0] else None
 
 
-def verify_function(prog: Program, reg: Registry, qualname: str, only_serves=None, both=False, part=None):
+def verify_function(prog: Program, reg: Registry, qualname: str, only_serves=None, both=False, part=None, only_names=None):
     """Returns a JSON-serialisable report for one function."""
     rep = {"function": qualname, "status": "ok", "obligations": [], "error": None}
     t0 = time.time()
@@ -972,6 +1159,8 @@ def verify_function(prog: Program, reg: Registry, qualname: str, only_serves=Non
         return rep
     todo = [ob for ob in obligations if only_serves is None or (set(ob.serves) & set(only_serves))]
     rep["n_selected"] = len(todo)
+    if only_names is not None:
+        todo = [ob for ob in todo if ob.name in only_names]
     if part is not None:
         i, n = part
         todo = todo[i::n]
